@@ -69,6 +69,20 @@ round2('C17-m3', 'C17', 'm1', [('c17m1_demo_test.go', 'internal/c17m1')], GT + "
 round2('C17-m4', 'C17', 'm2', [('c17m2_demo_test.go', 'internal/c17m2')], GT + "./internal/c17m2/ -run TestAliasedAndExpandedSpellingsAgree -v")
 round2('C19-m3', 'C19', 'm1', [('c19_m1_demo_test.go', 'internal/integration')], "go test -race -vet=off -count=1 -run TestC19M1SharedPartHeader ./internal/integration/")
 round2('C19-m4', 'C19', 'm2', [('c19_m2_demo_test.go', 'internal/integration')], "go test -race -vet=off -count=1 -run TestC19M2SharedServerURLOverride ./internal/integration/")
+def gen(dirname, spec):
+    return "go run ./cmd/ogen --clean --package api --target internal/%s/api internal/%s/%s >/dev/null 2>&1 && " % (dirname, dirname, spec)
+round2('C05-m3', 'C05', 'm1', [('demo/spec.yml', 'internal/c05demo_m1'), ('demo/demo_test.go', 'internal/c05demo_m1')], gen('c05demo_m1', 'spec.yml') + GT + "-run TestC05LookupAgreesWithServing ./internal/c05demo_m1/")
+round2('C05-m4', 'C05', 'm2', [('demo/spec.yml', 'internal/c05demo_m2'), ('demo/demo_test.go', 'internal/c05demo_m2')], gen('c05demo_m2', 'spec.yml') + GT + "-run TestC05ParamWithSeveralFollowers ./internal/c05demo_m2/")
+round2('C09-m3', 'C09', 'm1', [('demo/spec.json', 'internal/c09demo'), ('demo/demo_test.go', 'internal/c09demo')], gen('c09demo', 'spec.json') + GT + "-run TestHeaderKeyRoundTrip -v ./internal/c09demo/")
+round2('C09-m4', 'C09', 'm2', [('demo/spec.json', 'internal/c09demo'), ('demo/demo_test.go', 'internal/c09demo')], gen('c09demo', 'spec.json') + GT + "-run TestUnsatisfiedRequirementDoesNotReachHandler -v ./internal/c09demo/")
+round2('C11-m3', 'C11', 'm1', [('c11_m1_demo_test.go', 'openapi/parser')], GT + "-run TestC11ResponseClassOutOfRange -v ./openapi/parser/")
+round2('C11-m4', 'C11', 'm2', [('c11_m2_demo_test.go', '.')], GT + "-run TestC11DuplicatePropertyLocation -v .")
+round2('C12-m3', 'C12', 'm1', [('normalize_marks_demo_test.go', 'uri'), ('router_marks_demo_test.go', 'internal/integration')], GT + "-run TestDemoNormalize ./uri/ ; a=$?; " + GT + "-run TestDemoRouterEscapedMarks ./internal/integration/ ; b=$?; [ $a -eq 0 ] && [ $b -eq 0 ]")
+round2('C12-m4', 'C12', 'm2', [('duplicate_paths_demo_test.go', 'openapi/parser')], GT + "-run 'TestDemoDuplicatePathsModuloEscaping|TestDemoDistinctPathsAccepted' ./openapi/parser/")
+round2('C13-m3', 'C13', 'm1', [('c13_m1_demo_test.go', 'json')], GT + "-run TestC13M1 ./json")
+round2('C13-m4', 'C13', 'm2', [('c13_m2_demo_test.go', 'conv')], GT + "-run TestC13M2 ./conv")
+round2('C15-m3', 'C15', 'm1', [('c15m1_demo_test.go', 'internal/c15m1demo')], GT + "-v -run TestNineAlternativeAPIKeys ./internal/c15m1demo/")
+round2('C15-m4', 'C15', 'm2', [('c15m2_demo_test.go', 'internal/c15m2demo')], GT + "-v -run TestRepeatedScalarParameter ./internal/c15m2demo/")
 # round2-entries
 TABLE.update(json.load(open('/verif/tools/seeded_extra.json')) if os.path.exists('/verif/tools/seeded_extra.json') else {})
 
